@@ -439,10 +439,10 @@ func intList(a []int) string {
 func convSource(cs []convCase) string {
 	var b, m strings.Builder
 	b.WriteString("package main\n\n")
-	b.WriteString("func showS(id int, s string) {\n\tprint(\"S\", id)\n\tfor i := 0; i < len(s); i++ {\n\t\tprint(\" \", s[i])\n\t}\n\tprintln()\n}\n")
-	b.WriteString("func showR(id int, r []rune) {\n\tprint(\"S\", id)\n\tfor i := 0; i < len(r); i++ {\n\t\tprint(\" \", r[i])\n\t}\n\tprintln()\n}\n")
-	b.WriteString("func showB(id int, r []byte) {\n\tprint(\"S\", id)\n\tfor i := 0; i < len(r); i++ {\n\t\tprint(\" \", r[i])\n\t}\n\tprintln()\n}\n")
-	b.WriteString("func showI(id int, r []int) {\n\tprint(\"S\", id)\n\tfor i := 0; i < len(r); i++ {\n\t\tprint(\" \", r[i])\n\t}\n\tprintln()\n}\n\n")
+	b.WriteString("func showS(id int, s string) {\n\tprint(\"S\", \" \", id)\n\tfor i := 0; i < len(s); i++ {\n\t\tprint(\" \", s[i])\n\t}\n\tprintln()\n}\n")
+	b.WriteString("func showR(id int, r []rune) {\n\tprint(\"S\", \" \", id)\n\tfor i := 0; i < len(r); i++ {\n\t\tprint(\" \", r[i])\n\t}\n\tprintln()\n}\n")
+	b.WriteString("func showB(id int, r []byte) {\n\tprint(\"S\", \" \", id)\n\tfor i := 0; i < len(r); i++ {\n\t\tprint(\" \", r[i])\n\t}\n\tprintln()\n}\n")
+	b.WriteString("func showI(id int, r []int) {\n\tprint(\"S\", \" \", id)\n\tfor i := 0; i < len(r); i++ {\n\t\tprint(\" \", r[i])\n\t}\n\tprintln()\n}\n\n")
 	for _, c := range cs {
 		switch c.Op {
 		case "i2s":
